@@ -14,7 +14,8 @@ import shutil
 
 from .. import cases
 from ..core import sha1, VERIF
-from ..run import pmap, cppcheck
+from ..run import pmap
+from ..gen._retry import cppcheck
 from ..gen import condgen
 from ..models import cfgselect
 
